@@ -52,8 +52,11 @@ def step (s : St) (line : String) : St × String :=
     | some r => ({ s with r := r }, "reap " ++ observe s.r.n.prod.store.height r.n r.ws)
     | none => ({ s with ok := false }, "start err")
   | "produce" =>
-    match Flow.opStep s.cfg s.r .produce with
-    | some r => ({ s with r := r }, s!"produce out={Drv.Prod.outClass (produce s.cfg s.r.n).2.2} " ++ observe s.r.n.prod.store.height r.n r.ws)
+    let fail := o.str "exec" = "fail"
+    let op : Flow.Op := if fail then .produceFail else .produce
+    let ex : Producer.ExecResp := if fail then .fail else .ok
+    match Flow.opStep s.cfg s.r op with
+    | some r => ({ s with r := r }, s!"produce out={Drv.Prod.outClass (produce s.cfg s.r.n ex).2.2} " ++ observe s.r.n.prod.store.height r.n r.ws)
     | none => ({ s with ok := false }, "start err")
   | "restart" | "crash" =>
     let op : Flow.Op := if o.verb = "crash" then .crash (o.nat "keep") else .restart
